@@ -488,3 +488,10 @@ def run(ck):
     s3 = _core.Shared(ck, 'R9.6', lambda r, k: r == 'R3.1', 'C03:', ' [an undecoded escape sequence reaches the .ui as backslash text]')
     c03.run(s3)
     ck.floor('R9.6', s3.count, 10, 'shared C03 R3.1 obligations')
+
+    # a constant string expression is folded before it is written: the concatenation table (C01 R1.2)
+    import rules.c01 as c01
+    ck.rule('R9.7', 'constant string expressions fold to the concatenation the source denotes (shared with C01)')
+    s1 = _core.Shared(ck, 'R9.7', lambda r, k: r == 'R1.2' and k.startswith('binary_arith|') and ('|CString|' in k or '|QString|' in k), 'C01:', ' [`"" + "x"` must be written as x]')
+    c01.run(s1)
+    ck.floor('R9.7', s1.count, 1, 'shared C01 R1.2 string folding obligations')
